@@ -1442,6 +1442,12 @@ def std_model(I, p, fr, t, args):
         if r is None:
             return Unknown("eq")
         return r if n == "eq" else (not r)
+    if n == "contains" and c.startswith("core::ops::range::") and isinstance(d0, Adt) and (d0.path or "").startswith("core::ops::range::") and len(args) > 1:
+        x = I.deref(args[1])
+        lo, hi = I.deref(d0.fields.get("start")) if "start" in d0.fields else None, I.deref(d0.fields.get("end")) if "end" in d0.fields else None
+        if isinstance(x, int) and not isinstance(x, bool) and all(v is None or (isinstance(v, int) and not isinstance(v, bool)) for v in (lo, hi)):
+            incl = d0.path.endswith(("RangeInclusive", "RangeToInclusive"))
+            return (lo is None or lo <= x) and (hi is None or (x <= hi if incl else x < hi))
     if n in ("then", "then_some") and c.startswith("core::bool::") and isinstance(d0, bool) and len(args) > 1:
         if not d0:
             return Adt("core::option::Option", "None", {})
